@@ -1,6 +1,8 @@
 //! Scripted byte streams: each call of the underlying `read` / `write` / `poll_read` /
 //! `poll_write` is answered by the next script event.  Blocking streams with an exhausted
-//! script transfer everything that is requested; async streams stay `Pending`.
+//! script transfer everything that is requested; async streams stay `Pending`.  The vectored entry points are real
+//! scatter / gather transfers governed by the same script (a stream that only forwarded them to the first slice would hide
+//! whatever a caller does with the second).
 use crate::util::split_list;
 use futures_io::{AsyncRead, AsyncWrite};
 use std::collections::VecDeque;
@@ -46,6 +48,17 @@ impl Src {
         self.pos += n;
         n
     }
+    /// a real scatter read: the transfer fills the slices one after the other (what `&[u8]`, `Cursor`, sockets do).
+    fn deliver_vectored(&mut self, bufs: &mut [io::IoSliceMut<'_>], n: usize) -> usize {
+        let mut left = n.min(self.remaining());
+        let mut done = 0;
+        for b in bufs.iter_mut() {
+            if left == 0 { break }
+            let k = self.deliver(b, left);
+            left -= k; done += k;
+        }
+        done
+    }
 }
 
 // NB: only `read` is implemented, so `read_exact` is std's default implementation.
@@ -53,6 +66,14 @@ impl io::Read for Src {
     fn read(&mut self, buf: &mut [u8]) -> io::Result<usize> {
         match step(&mut self.script, buf.len(), Step::Xfer(buf.len())) {
             Step::Xfer(n) => Ok(self.deliver(buf, n)),
+            Step::Err(k) => Err(k.into()),
+            Step::Pending => Err(io::ErrorKind::WouldBlock.into())
+        }
+    }
+    fn read_vectored(&mut self, bufs: &mut [io::IoSliceMut<'_>]) -> io::Result<usize> {
+        let total: usize = bufs.iter().map(|b| b.len()).sum();
+        match step(&mut self.script, total, Step::Xfer(total)) {
+            Step::Xfer(n) => Ok(self.deliver_vectored(bufs, n)),
             Step::Err(k) => Err(k.into()),
             Step::Pending => Err(io::ErrorKind::WouldBlock.into())
         }
@@ -67,6 +88,14 @@ impl AsyncRead for Src {
             Step::Pending => Poll::Pending
         }
     }
+    fn poll_read_vectored(mut self: Pin<&mut Self>, _: &mut Context<'_>, bufs: &mut [io::IoSliceMut<'_>]) -> Poll<io::Result<usize>> {
+        let total: usize = bufs.iter().map(|b| b.len()).sum();
+        match step(&mut self.script, total, Step::Pending) {
+            Step::Xfer(n) => Poll::Ready(Ok(self.deliver_vectored(bufs, n))),
+            Step::Err(k) => Poll::Ready(Err(k.into())),
+            Step::Pending => Poll::Pending
+        }
+    }
 }
 
 pub struct Snk { pub out: Vec<u8>, pub script: VecDeque<Ev>, pub flush_mode: u8, pub flushes: usize }
@@ -74,6 +103,17 @@ pub struct Snk { pub out: Vec<u8>, pub script: VecDeque<Ev>, pub flush_mode: u8,
 impl Snk {
     pub fn new(script: VecDeque<Ev>) -> Self { Snk { out: Vec::new(), script, flush_mode: 0, flushes: 0 } }
     pub fn with_flush(script: VecDeque<Ev>, flush_mode: u8) -> Self { Snk { out: Vec::new(), script, flush_mode, flushes: 0 } }
+    /// a real gather write: the accepted count runs through the slices in order.
+    fn accept_vectored(&mut self, bufs: &[io::IoSlice<'_>], n: usize) -> usize {
+        let mut left = n;
+        for b in bufs {
+            if left == 0 { break }
+            let k = left.min(b.len());
+            self.out.extend_from_slice(&b[.. k]);
+            left -= k;
+        }
+        n - left
+    }
 }
 
 // NB: only `write` / `flush`, so `write_all` is std's default implementation.
@@ -85,6 +125,14 @@ impl io::Write for Snk {
             Step::Pending => Err(io::ErrorKind::WouldBlock.into())
         }
     }
+    fn write_vectored(&mut self, bufs: &[io::IoSlice<'_>]) -> io::Result<usize> {
+        let total: usize = bufs.iter().map(|b| b.len()).sum();
+        match step(&mut self.script, total, Step::Xfer(total)) {
+            Step::Xfer(n) => Ok(self.accept_vectored(bufs, n)),
+            Step::Err(k) => Err(k.into()),
+            Step::Pending => Err(io::ErrorKind::WouldBlock.into())
+        }
+    }
     fn flush(&mut self) -> io::Result<()> { Ok(()) }
 }
 
@@ -92,6 +140,14 @@ impl AsyncWrite for Snk {
     fn poll_write(mut self: Pin<&mut Self>, _: &mut Context<'_>, buf: &[u8]) -> Poll<io::Result<usize>> {
         match step(&mut self.script, buf.len(), Step::Pending) {
             Step::Xfer(n) => { self.out.extend_from_slice(&buf[.. n]); Poll::Ready(Ok(n)) }
+            Step::Err(k) => Poll::Ready(Err(k.into())),
+            Step::Pending => Poll::Pending
+        }
+    }
+    fn poll_write_vectored(mut self: Pin<&mut Self>, _: &mut Context<'_>, bufs: &[io::IoSlice<'_>]) -> Poll<io::Result<usize>> {
+        let total: usize = bufs.iter().map(|b| b.len()).sum();
+        match step(&mut self.script, total, Step::Pending) {
+            Step::Xfer(n) => Poll::Ready(Ok(self.accept_vectored(bufs, n))),
             Step::Err(k) => Poll::Ready(Err(k.into())),
             Step::Pending => Poll::Pending
         }
